@@ -23,7 +23,13 @@ if [ ! -f Cargo.lock ]; then cp /repo/Cargo.lock Cargo.lock; fi
 	case "$ID" in
 	C03|C04|C11|C13|C14|C15|C16|C18|all|bins)
 		if [ -f /verif/shim/xtsim_io.c ]; then
-			gcc -O2 -fPIC -shared -o /verif/.build/libxtsim_io.so /verif/shim/xtsim_io.c -ldl
+			# (replaced atomically and only when changed: a check may be running from it)
+			gcc -O2 -fPIC -shared -o /verif/.build/libxtsim_io.so.new /verif/shim/xtsim_io.c -ldl || exit 2
+			if cmp -s /verif/.build/libxtsim_io.so.new /verif/.build/libxtsim_io.so; then
+				rm -f /verif/.build/libxtsim_io.so.new
+			else
+				mv -f /verif/.build/libxtsim_io.so.new /verif/.build/libxtsim_io.so
+			fi
 		fi
 		# The shipped binaries: /repo's own manifest, guard off.
 		(cd /repo && cargo build --offline --locked --target-dir /verif/.build/xt-target 2>&1 | tail -2)
